@@ -103,7 +103,10 @@ def _run(m0: int, m: int, turns: int, cancel: bool, warm: bool) -> tuple:
     cur, call = md[tc.STATE_KEY], md[tc.CALL_STATE_KEY]
     for _ in range(turns):
         tc.HOLD["now"] += 1
-        r = tc.do_exchange(app, _METHODS[m0], _AUTH, {tc.STATE_KEY: cur, tc.CALL_STATE_KEY: call})
+        try:
+            r = tc.do_exchange(app, _METHODS[m0], _AUTH, {tc.STATE_KEY: cur, tc.CALL_STATE_KEY: call})
+        except Exception as e:  # noqa: BLE001
+            return False, ["own-endpoint turn failed"], tc.http_error_info(e) or (0, repr(e))
         cur = r[tc.STATE_KEY]
     del tc.LOG[:]
     tc.HOLD["now"] += 1
@@ -252,6 +255,8 @@ def tokens_accepted_only_at_minting_method(m0: int, m: int, turns: int, cancel: 
         # listed open finding: the cross-method site is carved out, the own-endpoint direction stays decided
         return True
     served, processed, err = _run(m0, m, turns, cancel, warm)
+    if processed == ["own-endpoint turn failed"]:
+        return False  # the minting method's own endpoint refused a regular turn
     if m == m0:
         return served and len(processed) == 1 and processed[0][0] == ("on_cancel" if cancel else "turn") and processed[0][2 if cancel else 1] == _METHODS[m]
     return (not served) and not processed and err is not None and err[0] == 400
